@@ -3,7 +3,7 @@ import GuppyVerif.Util.Sexp
 /-! Line-protocol driver for C15.  One S-expression per line:
     `(res <exp> (<variant>…) (<arg>…))` → `none` | `<index> <ret> <argty>…`   (repaired loop)
     `(shared <exp> (<variant>…) (<arg>…))` → same for the pre-fix loop
-    ty: `n` | `i` | `f` | `b` | `(t <ty>…)` | `(v <k>)`;  exp: `-` | ty;  variant: `((<ty>…) <ty> [(<comptime 0|1>…)])` | `(o <sig>…)` nested overload | `ai` custom all-int checker
+    ty: `n` | `i` | `f` | `b` | `(t <ty>…)` | `(v <k>)`;  exp: `-` | ty;  variant: `((<ty>…) <ty> [(<comptime 0|1>…)])` | `(o <sig>…)` nested overload | `ai` custom all-int checker | `x` ill-formed signature (reply `invalid <i>`)
     arg: `(y <ty>)` | `li` | `ln` | `lf` | `lb` | `(t <arg>…)` -/
 open GuppyVerif GuppyVerif.Overload
 
@@ -38,6 +38,7 @@ def sig? : Sexp → Option Sig
 
 def variant? : Sexp → Option Variant
   | .atom "ai" => some .allInts
+  | .atom "x" => some .invalid
   | .list (.atom "o" :: ss) => do some (.nested (← ss.mapM sig?))
   | e => (sig? e).map .plain
 
@@ -62,7 +63,11 @@ def handle (line : String) : String :=
       | e => (ty? e).map some
     match exp, vs.mapM variant?, as.mapM arg? with
     | some exp, some vs, some as =>
-      if op == "res" then showRes (resolve vs as exp)
+      if op == "res" then
+        match resolveR vs as exp with
+        | .chosen i o => showRes (some (i, o))
+        | .noMatch => "none"
+        | .invalid i => s!"invalid {i}"
       else if op == "shared" then showRes (resolveShared vs as exp)
       else "bad-op"
     | _, _, _ => "bad-op"
